@@ -371,13 +371,16 @@ def nondiff_rows():
             ("isinstance", lambda v: ab.isinstance(v, onp.ndarray)), ("type", lambda v: ab.type(v) is onp.ndarray)]
     x3 = gen((3,)) * 1.7 + 0.25
     m23 = gen((2, 3), k=4) * 1.7 + 0.25
-    templates = [("A", lambda f, v: f(v), x3), ("M", lambda f, v: f(v), m23), ("AB", lambda f, v: f(v, B3), x3), ("Aaxis", lambda f, v: f(v, axis=0), m23),
+    # keyword-argument templates first: the keyword arguments must reach the function when it is called on a traced value
+    templates = [("Maxis", lambda f, v: f(v, axis=0), m23), ("Adec", lambda f, v: f(v, decimals=1), x3 * 1.234), ("ABtol", lambda f, v: f(v, x3 + 0.05, atol=0.1), x3),
+                 ("Mkeep", lambda f, v: f(v, axis=1, keepdims=True), m23),
+                 ("A", lambda f, v: f(v), x3), ("M", lambda f, v: f(v), m23), ("AB", lambda f, v: f(v, B3), x3),
                  ("Aint", lambda f, v: f(v, 1), x3), ("BA", lambda f, v: f(B3, v), x3)]
     rows = []
     for i, (name, fn) in enumerate(fns):
         done = 0
         for tname, call, x in templates:
-            if done >= 2:
+            if done >= 3:
                 break
             try:
                 want = call(fn, x)        # plain NumPy through the unboxed branch
